@@ -36,6 +36,8 @@ cRaw == { <<97, 255, 98>>, <<240, 144, 128>>, <<226, 130>> \o A15 \o <<237, 160,
 cRawNone == {}
 cU16 == { <<97, 55296, 98>>, <<55357, 56832, 97>>, <<56320>>, <<>>, [i \in 1..18 |-> IF i = 9 THEN 55296 ELSE 8364] }
 cU16None == {}
+cOpsSim == cOpsAll \cup {"compare", "from_utf8_lossy", "from_utf16"}
+cCapsSim == {0, 1, 15, 16, 17, 30, 64, BIG, TOOLONG}
 cOpsDecode == {"from_utf8_lossy", "from_utf16", "push_str", "pop", "clone", "drop", "shrink_to", "reserve"}
 cCapsSizes == {0, 1, 15, 16, 17, 30, BIG, TOOLONG, OVERFLOW}
 cHintsSizes == {0, 20, BIG, TOOLONG, OVERFLOW}
